@@ -41,8 +41,19 @@ Theorem no_close_while_request_in_progress :
 Proof. exact (conj no_close_mid_request (conj close_when_done unfixed_closes_mid_request)). Qed.
 Print Assumptions no_close_while_request_in_progress.
 
+(* Idle timeout: once a persistent request's head is parsed the connection is never dropped for
+   idleness, however much STORE time passes (between requests, or while an application yields
+   nothing); a connection without such a request is dropped once the configured time is over.
+   This is why a Tick step of the connection machine below changes nothing. *)
+Theorem keep_alive_survives_any_idle_gap :
+  (forall configured elapsed, idle_drop (timeout_after_head true configured) elapsed = false) /\
+  (forall configured elapsed, 0 < configured -> configured <= elapsed ->
+     idle_drop (timeout_after_head false configured) elapsed = true).
+Proof. exact (conj persistent_never_idle_dropped nonpersistent_idle_dropped). Qed.
+Print Assumptions keep_alive_survives_any_idle_gap.
+
 (* One persistent connection, ALL schedules of enqueue / client send / server service / partial byte
-   transfer / client receive steps, ALL applications keeping the WSGI contract.  The theorems for the
+   transfer / client receive / store-time Tick steps, ALL applications keeping the WSGI contract.  The theorems for the
    REAL codec (C29's parser model) are in V.C31.PropsReal; here the generic form. *)
 
 (* GENERIC form: the same three facts for ANY codec meeting the contracts (okmsg = what the
